@@ -733,8 +733,8 @@ func (e *Engine) sourceNames(fn *ssa.Function) map[string]nameRef {
 // reaching picks the SSA version of a named variable that reaches the start (or, with atEnd, the
 // end) of block at: the candidate whose definition dominates the point and is dominated by every
 // other such candidate.
-func reaching(nr nameRef, at *ssa.BasicBlock, atEnd bool, before ssa.Instruction) ssa.Value {
-	if at == nil || len(nr.vals) <= 1 {
+func reaching(nr nameRef, at *ssa.BasicBlock, atEnd bool, before ssa.Instruction, strict bool) ssa.Value {
+	if at == nil || (len(nr.vals) <= 1 && !strict) {
 		return nr.val
 	}
 	beforePos := -1
@@ -793,6 +793,9 @@ func reaching(nr nameRef, at *ssa.BasicBlock, atEnd bool, before ssa.Instruction
 		}
 	}
 	if best == nil {
+		if strict {
+			return nil // no definition of the name reaches this point
+		}
 		return nr.val
 	}
 	return best
